@@ -228,7 +228,7 @@ fn serializable(r: &mut Prng, n: usize, rep: &mut Report) {
             let key = format!("serializable:v{tag}:{}", if w.len() > 120 { format!("{}…#{}", &w[..100], w.len()) } else { w.clone() });
             let res = guarded(AssertUnwindSafe(|| {
                 let (hash, script) = sp.compiled_code_and_hash();
-                let code: Vec<u8> = script.as_ref().to_vec();
+                let code: Vec<u8> = (&*script).to_vec();
                 (hash.to_string(), code)
             }));
             let (hash, code) = match res {
@@ -255,7 +255,7 @@ fn serializable(r: &mut Prng, n: usize, rep: &mut Report) {
                 Ok(Ok(back)) => {
                     let same_variant = std::mem::discriminant(&back) == std::mem::discriminant(&sp);
                     let (h2, s2) = back.compiled_code_and_hash();
-                    if !same_variant || fprogram(back.inner()) != w || h2.to_string() != hash || s2.as_ref() != &code[..] {
+                    if !same_variant || fprogram(back.inner()) != w || h2.to_string() != hash || &*s2 != &code[..] {
                         rep.fail(&key, "JSON round trip of SerializableProgram changed the version, program, code or hash", json!({"program": w, "json": js}), json!({"variant_kept": same_variant, "hash": h2.to_string()}));
                     }
                 }
@@ -291,7 +291,7 @@ fn blueprint_validator(r: &mut Prng, n: usize, rep: &mut Report) {
         rep.evaluations += 1;
         rep.count("blueprint-validator");
         let key = format!("validator:{}", if w.len() > 120 { format!("{}…#{}", &w[..100], w.len()) } else { w.clone() });
-        match guarded(AssertUnwindSafe(|| serde_json::from_value::<Validator>(js.clone()).map_err(|e| e.to_string()))) {
+        match guarded(AssertUnwindSafe(|| serde_json::from_value::<Validator<SerializableProgram>>(js.clone()).map_err(|e| e.to_string()))) {
             Ok(Ok(v)) => {
                 let out = serde_json::to_value(&v).unwrap();
                 if out["compiledCode"] != js["compiledCode"] || out["hash"] != js["hash"] || out["title"] != js["title"] || fprogram(v.program.inner()) != w {
